@@ -32,7 +32,7 @@ def norm_type(t):
 
 
 class Skeletons:
-    def __init__(self, funcs, idx, lock_names, alphabet_calls, inline_filter=None):
+    def __init__(self, funcs, idx, lock_names, alphabet_calls, inline_filter=None, event_filter=None):
         """lock_names: callable(type string) -> lock name; alphabet_calls: callable(callee string) -> event name or None"""
         self.funcs = funcs
         self.idx = idx
@@ -43,6 +43,12 @@ class Skeletons:
         self.problems = []
         self.functions_seen = set()
         self.inline_filter = inline_filter
+        self.event_filter = event_filter
+
+    def _ev(self, *events):
+        if self.event_filter is None:
+            return tuple(events)
+        return tuple(e for e in events if self.event_filter(e))
 
     # ------------------------------------------------------------------ per-function traces
     def traces(self, fname):
@@ -58,8 +64,13 @@ class Skeletons:
         # DFS over paths: state = (bb, visits dict, guards map local->lock, pending map local->lock (LockResult), trace tuple)
         stack = [('bb0', {}, {}, {}, ())]
         steps = 0
+        seen_states = set()
         while stack:
             bb, visits, guards, pending, tr = stack.pop()
+            key = (bb, tuple(sorted(visits.items())), tuple(sorted(guards.items())), tuple(sorted(pending.items())), tr)
+            if key in seen_states:
+                continue
+            seen_states.add(key)
             steps += 1
             if steps > 400000 or len(out) > CAP:
                 self.problems.append('trace explosion in %s' % fname)
@@ -96,18 +107,18 @@ class Skeletons:
             elif k == 'assert':
                 stack.append((t['next'], visits, guards, pending, tr))
             elif k == 'yield':
-                stack.append((t['next'], visits, guards, pending, tr + (('yield', ''),)))
+                stack.append((t['next'], visits, guards, pending, tr + self._ev(('yield', ''))))
             elif k == 'drop':
                 place = t['place']
                 if place in guards:
-                    tr = tr + (('rel', guards.pop(place)),)
+                    tr = tr + self._ev(('rel', guards.pop(place)))
                 elif place in pending:
                     pending.pop(place)
                 stack.append((t['next'], visits, guards, pending, tr))
             elif k == 'return':
                 for g in list(guards):
                     if g != '_0':
-                        tr = tr + (('rel', guards[g]),)
+                        tr = tr + self._ev(('rel', guards[g]))
                 if '_0' in guards:
                     self.problems.append('%s returns a guard (not modelled)' % fname)
                 out.add(tr + ())
@@ -134,9 +145,9 @@ class Skeletons:
                     if dest:
                         guards[dest] = lock
                     if nxt:
-                        stack.append((nxt, visits, guards, pending, tr + (('acq', lock),)))
+                        stack.append((nxt, visits, guards, pending, tr + self._ev(('acq', lock))))
                     continue
-                if re.search(r'Condvar::wait(?:_while|_timeout)?$', callee) and arg_locals:
+                if re.search(r'Condvar::wait(?:_while|_timeout)?(?:::<.*>)?$', callee) and arg_locals:
                     g = [a for a in arg_locals if a in guards]
                     if g:
                         lock = guards.pop(g[0])
@@ -144,16 +155,16 @@ class Skeletons:
                             pending[dest] = lock
                         # wait = release + block + re-acquire; the re-acquire is the unwrap of the LockResult
                         if nxt:
-                            stack.append((nxt, visits, guards, pending, tr + (('wait', lock), ('rel', lock))))
+                            stack.append((nxt, visits, guards, pending, tr + self._ev(('wait', lock), ('rel', lock))))
                         continue
                 if re.search(r'Condvar::notify_(all|one)$', callee):
                     if nxt:
-                        stack.append((nxt, visits, guards, pending, tr + (('notify', 'cv'),)))
+                        stack.append((nxt, visits, guards, pending, tr + self._ev(('notify', 'cv'))))
                     continue
                 if re.search(r'mem::drop::<.*MutexGuard', callee) and arg_locals and arg_locals[0] in guards:
                     lock = guards.pop(arg_locals[0])
                     if nxt:
-                        stack.append((nxt, visits, guards, pending, tr + (('rel', lock),)))
+                        stack.append((nxt, visits, guards, pending, tr + self._ev(('rel', lock))))
                     continue
                 ev = self.alpha(callee)
                 target = resolve_callee(callee, self.funcs, self.idx)
@@ -161,7 +172,7 @@ class Skeletons:
                     subs = self.traces(target)
                     if nxt is None:
                         continue
-                    pre = tr + ((('call', ev),) if ev else ())
+                    pre = tr + (self._ev(('call', ev)) if ev else ())
                     if len(subs) * 1 > CAP:
                         self.problems.append('too many traces of %s' % target)
                         subs = set(list(subs)[:CAP])
@@ -169,7 +180,7 @@ class Skeletons:
                         stack.append((nxt, visits, guards, pending, pre + st))
                     continue
                 if ev:
-                    tr = tr + (('call', ev),)
+                    tr = tr + self._ev(('call', ev))
                 if nxt:
                     stack.append((nxt, visits, guards, pending, tr))
             else:
